@@ -62,12 +62,29 @@ class Model:
     """binding relation + source map of one rendered program"""
 
     def __init__(self, group, style):
-        self.prog = group["prog"]
+        import copy
+        self.prog = copy.deepcopy(group["prog"])
+        # module layout: flat for even styles; for odd styles the imported modules live in sub-directories of the
+        # folder and the use statements of the main module spell the relative path
+        nested = style % 2 == 1
+        self.relpath = {}
+        others = sorted(m for m in self.prog["mods"] if m != self.prog["main"])
+        for i, m in enumerate(others):
+            self.relpath[m] = ("lib/%s.oal" % m if i % 2 == 0 else "lib/deep/%s.oal" % m) if nested else m + ".oal"
+        self.relpath[self.prog["main"]] = self.prog["main"] + ".oal"
+        import posixpath
+        for m, stmts in self.prog["mods"].items():
+            for st in stmts:
+                if st["k"] == "use":
+                    st["spelling"] = posixpath.relpath(self.relpath[st["s"]], posixpath.dirname(self.relpath[m]) or ".")
         self.tables = {m: {pkey(r["use"]): r["b"] for r in group["mods"][m]["table"]} for m in group["mods"]}
         self.r = render.render_program(self.prog, style=style)
         main = self.prog["mods"][self.prog["main"]]
-        self.loaded = [self.prog["main"]] + [st["s"] for st in main if st["k"] == "use"]
-        self.loaded = list(dict.fromkeys(self.loaded))
+        self.loaded = [self.prog["main"]]
+        for m in self.loaded:                       # transitive closure of the imports, in discovery order
+            for st in self.prog["mods"][m]:
+                if st["k"] == "use" and st["s"] not in self.loaded:
+                    self.loaded.append(st["s"])
         self.text = {m: self.r["files"][BASE_MARK + m + ".oal"] for m in self.prog["mods"]}
         self.raw = {m: self.text[m].encode("utf-8") for m in self.text}
         self.tokens = {m: self._tokens(m) for m in self.loaded}
@@ -145,17 +162,20 @@ class Ws:
         if os.path.isdir(self.dir):
             shutil.rmtree(self.dir)
         os.makedirs(self.dir)
+        self.relpath = dict(model.relpath)
         for m, t in model.text.items():
-            with open(os.path.join(self.dir, m + ".oal"), "w", encoding="utf-8", newline="") as f:
+            p = os.path.join(self.dir, self.relpath[m])
+            os.makedirs(os.path.dirname(p), exist_ok=True)
+            with open(p, "w", encoding="utf-8", newline="") as f:
                 f.write(t)
         with open(os.path.join(self.dir, "oal.toml"), "w") as f:
             f.write('[api]\nmain = "%s.oal"\ntarget = "out.yaml"\n' % model.prog["main"])
 
     def uri(self, m):
-        return lsp.uri_of(os.path.join(self.dir, m + ".oal"))
+        return lsp.uri_of(os.path.join(self.dir, self.relpath[m]))
 
     def mod_of(self, uri):
-        return os.path.basename(uri)[:-4]
+        return os.path.basename(uri)[:-4]         # module names are unique whatever the directory
 
     def drop(self):
         shutil.rmtree(self.dir, ignore_errors=True)
